@@ -6,6 +6,7 @@ Nothing in mc/solverlab.py is edited: the extra cost is registered under a
 """
 import numpy as np
 from mc import solverlab, env
+from ref import c11_detect as ref
 
 INF = float('inf')
 MAX_COLLAPSE_CALLS = 60   # per execution; a collapse loop that never ends makes no cost calls, so it needs its own horizon
@@ -16,14 +17,23 @@ def _tied(x):
     return float(4.0 * (x[0] - x[1]) ** 2 + 0.25 * (x[0] + x[1] - 2.0) ** 2 + sum((v - 0.25) ** 2 for v in x[2:]))
 
 
+def _measure22(x):
+    # a (2,2) product measure [w00,w01,p00,p01, w10,w11,p10,p11]: the two expectations are pulled to 0.5 and 0.25
+    e0 = x[0] * x[2] + x[1] * x[3]
+    e1 = x[4] * x[6] + x[5] * x[7]
+    return float((e0 - 0.5) ** 2 + (e1 - 0.25) ** 2)
+
+
 solverlab.COSTS.setdefault('c11_tied', _tied)
+solverlab.COSTS.setdefault('c11_measure22', _measure22)
+solverlab.STARTS.setdefault(8, [[1.0, 0.0, 0.75, 0.25, 0.5, 0.5, 0.5, 0.5078125]])   # Lab._build evaluates this default eagerly
 
 
 # ------------------------------------------------------------------ termination specs (JSON-able)
 def build_term(spec):
     """['Or', s1, s2...] | ['And', ...] | ['COG', tol, gens] | ['VTR', tol, target]
-    | ['At', target, tol, gens, mask] | ['As', offset, tol, gens, mask]
-    masks: None or a list of ints / 2-lists"""
+    | ['At', target, tol, gens, mask] | ['As', offset, tol, gens, mask]   masks: None or a list of ints / 2-lists
+    | ['W', tol, gens, mmask] | ['P', tol, gens, mmask]    mmask: None or [format, [[measure, index-or-pair], ...]]"""
     import mystic.termination as mt
     kind = spec[0]
     if kind in ('Or', 'And'):
@@ -36,7 +46,21 @@ def build_term(spec):
         return mt.CollapseAt(target=spec[1], tolerance=spec[2], generations=spec[3], mask=_mask(spec[4]))
     if kind == 'As':
         return mt.CollapseAs(offset=spec[1], tolerance=spec[2], generations=spec[3], mask=_mask(spec[4]))
+    if kind == 'W':
+        return mt.CollapseWeight(tolerance=spec[1], generations=spec[2], mask=_mmask(spec[3]))
+    if kind == 'P':
+        return mt.CollapsePosition(tolerance=spec[1], generations=spec[2], mask=_mmask(spec[3]))
     raise KeyError(kind)
+
+
+def _mmask(m):
+    if m is None:
+        return None
+    fmt, items = m
+    items = [(a, tuple(b) if isinstance(b, (list, tuple)) else b) for a, b in items]
+    if fmt == 'where' and not items:
+        return ()
+    return ref.build_mask(fmt, items)
 
 
 def _mask(m):
@@ -77,7 +101,12 @@ def other_state(termination):
 
 
 def canon_mask(kind, mask):
-    """set of ints (CollapseAt) / set of ints and sorted 2-tuples (CollapseAs)"""
+    """set of ints (CollapseAt) / set of ints and sorted 2-tuples (CollapseAs) /
+    set of (measure, index) (CollapseWeight) / set of (measure, frozenset pair) (CollapsePosition)"""
+    if kind == 'CollapseWeight':
+        return ref.canon_weight(mask)
+    if kind == 'CollapsePosition':
+        return ref.canon_position(mask)
     out = set()
     for m in (mask or ()):
         if hasattr(m, '__len__'):
@@ -126,6 +155,10 @@ class Lab11(solverlab.Lab):
     def _configure(self, s, call):
         if call == 'term' and self.cfg.get('term11') is not None:
             s.SetTermination(build_term(self.cfg['term11']))
+            return
+        if call == 'stepmon' and self.cfg.get('npts') is not None:
+            import mystic.monitors as mm
+            s.SetGenerationMonitor(mm.Monitor(npts=tuple(self.cfg['npts'])))
             return
         solverlab.Lab._configure(self, s, call)
 
